@@ -2,7 +2,7 @@
 //! sockets, empty or filled to capacity, blocking or not; every system call the library makes on
 //! the descriptor is logged through the shim (pass-through hooks; a write that would block for
 //! ever is reported instead of performed).
-//!   mk <pipe|stream|dgram> <nonblock 0|1> <full 0|1>
+//!   mk <pipe|stream|dgram|opath> <nonblock 0|1> <full 0|1>
 //!   reg <own|raw> <sig>      raise <n>      drain      unreg      final
 use crate::common::*;
 use signal_hook_registry::verif_shim as shim;
@@ -84,6 +84,8 @@ fn run_child(ops: &[String]) {
                 let mut fds = [0; 2];
                 unsafe {
                     match *k {
+                        // a descriptor that is no socket and refuses F_SETFL: O_PATH
+                        "opath" => { fds[0] = -1; fds[1] = libc::open(b"/\0".as_ptr() as *const libc::c_char, libc::O_PATH); }
                         "pipe" => { libc::pipe(fds.as_mut_ptr()); }
                         "stream" => { libc::socketpair(libc::AF_UNIX, libc::SOCK_STREAM, 0, fds.as_mut_ptr()); }
                         _ => { libc::socketpair(libc::AF_UNIX, libc::SOCK_DGRAM, 0, fds.as_mut_ptr()); }
